@@ -195,7 +195,16 @@ def r16_2b(ctx: Ctx, rule="R16.2"):
     # another representation: the container lines are filed into is held in a local (`current.append(line)`)
     direct = [c_ for c_ in calls_in(lp) if call_name(c_) == "append" and c_.args and norm(c_.args[0]) == lv and isinstance(c_.func.value, ast.Name)]
     keyed = [c_ for c_ in calls_in(lp) if call_name(c_) == "append" and c_.args and norm(c_.args[0]) == lv and isinstance(c_.func.value, ast.Subscript)]
+    per_line_temp = False
     if direct and not keyed:
+        # a temporary chosen anew for every line (`target = self['header'] if sec is None else self[sec]`) is the keyed form
+        # written through a local: the path rule below reads it through its aliases
+        for p_ in _rf16(enum_paths(lp.body)):
+            binds_ = [x_ for x_ in p_.stmts() if isinstance(x_, ast.Assign) and norm(x_.targets[0]) == direct[0].func.value.id]
+            apps_ = [x_ for x_ in p_.stmts() if norm(x_) == "%s.append(%s)" % (direct[0].func.value.id, lv)]
+            if binds_ and apps_:
+                per_line_temp = True
+    if direct and not keyed and not per_line_temp:
         # the same discipline for this representation: the local is the header list before the loop, every section-header line
         # rebinds it to self[<name on that line>] (whether or not the section is new), every other line is appended to it once
         cl = direct[0].func.value.id
